@@ -331,7 +331,9 @@ func init() {
 			// a failure that the library tolerates by design (an unreachable
 			// recipient is skipped) does not fail the default effect: only a
 			// failure that ends the request in an error counts
-			if cbIdx >= 0 && injIdx >= 0 && injIdx < cbIdx && rp.Err != "" {
+			tolerated := injIdx >= 0 && res.Log[injIdx].Kind == "tp.Dereference" &&
+				(strings.Contains(res.Log[injIdx].Site, "dereferenceForResolvingInboxes") || strings.Contains(res.Log[injIdx].Site, "hasInboxForwardingValues"))
+			if cbIdx >= 0 && injIdx >= 0 && injIdx < cbIdx && (rp.Err != "" || !tolerated) {
 				viol("callback-after-failure", res.Log[cbIdx].Site, cs.Typ, fmt.Sprintf("wrapped callback ran (event %d) although %s had failed (event %d)", cbIdx, res.Log[injIdx].Kind, injIdx))
 			}
 			if cbIdx >= 0 {
